@@ -183,7 +183,9 @@ typedef void (*EntryFn)(Env&);
 struct Entry { const char* name; EntryFn run; };
 
 // ---------------------------------------------------------------- twins
-struct ManT { Slot s; ManifoldManifold* c = nullptr; Manifold p; size_t ntri = 0; long nprop = 0; bool ok = false; bool tangents = false; std::string how; };
+// simple: a primitive or a non-degenerate affine image / copy of one (the only operands handed to the smoothing/refine family,
+// whose core implementation is fragile on general geometry - that is C01/C19's subject, not the binding's)
+struct ManT { Slot s; ManifoldManifold* c = nullptr; Manifold p; size_t ntri = 0; long nprop = 0; bool ok = false; bool tangents = false; bool simple = false; std::string how; };
 struct CsT { Slot s; ManifoldCrossSection* c = nullptr; CrossSection p; size_t nvert = 0; bool ok = false; std::string how; };
 struct PolyT { Slot s; ManifoldPolygons* c = nullptr; Polygons p; bool valid = false; std::string how; };
 struct MeshT { Slot s; ManifoldMeshGL* c = nullptr; MeshGL p; bool valid = false; bool exact = true; std::string how; };
@@ -902,11 +904,12 @@ static void e_polygons(Env& e);
 static void e_meshgl(Env& e);
 static void e_meshgl64(Env& e);
 
-static int pickMan(Env& e, size_t maxTri = 1500, bool needOk = false, bool noTangents = false) {
+static int pickMan(Env& e, size_t maxTri = 1500, bool needOk = false, bool noTangents = false, bool needSimple = false) {
   for (int tries = 0; tries < 2; tries++) {
     std::vector<int> cand;
     for (size_t i = 0; i < e.mans.size(); i++)
-      if (e.mans[i].ntri <= maxTri && (!needOk || e.mans[i].ok) && (!noTangents || !e.mans[i].tangents)) cand.push_back((int)i);
+      if (e.mans[i].ntri <= maxTri && (!needOk || e.mans[i].ok) && (!noTangents || !e.mans[i].tangents) && (!needSimple || (e.mans[i].simple && e.mans[i].ok)))
+        cand.push_back((int)i);
     if (!cand.empty()) return e.r.pick(cand);
     std::string keep = e.entry;
     e_cube(e);  // guarantees a small, valid solid (sizes are forced positive on this path)
@@ -980,30 +983,34 @@ static void e_empty(Env& e) {
   mkMan(e, "manifold_empty", [&](void* m) { return CF(manifold_empty)(m); }, [&] { return Manifold(); }, "empty()");
 }
 static void e_tetrahedron(Env& e) {
-  mkMan(e, "manifold_tetrahedron", [&](void* m) { return CF(manifold_tetrahedron)(m); }, [&] { return Manifold::Tetrahedron(); }, "tetrahedron()");
+  int ni_ = mkMan(e, "manifold_tetrahedron", [&](void* m) { return CF(manifold_tetrahedron)(m); }, [&] { return Manifold::Tetrahedron(); }, "tetrahedron()");
+  if (ni_ >= 0) e.mans[ni_].simple = e.mans[ni_].ok;
 }
 static void e_cube(Env& e) {
   bool force = g_forceValid || e.entry != "cube";
   double x = e.len(), y = e.len(), z = e.len();
   if (!force && e.r.chance(0.12)) (e.r.chance(0.5) ? x : z) = e.r.chance(0.5) ? -1.0 : 0.0;
   int ctr = cint(e);
-  mkMan(e, "manifold_cube", [&](void* m) { return CF(manifold_cube)(m, x, y, z, ctr); },
+  int ni_ = mkMan(e, "manifold_cube", [&](void* m) { return CF(manifold_cube)(m, x, y, z, ctr); },
         [&] { return Manifold::Cube(vec3(x, y, z), ctr != 0); },
         "cube(" + fmt(x) + "," + fmt(y) + "," + fmt(z) + "," + std::to_string(ctr) + ")");
+  if (ni_ >= 0) e.mans[ni_].simple = e.mans[ni_].ok;
 }
 static void e_cylinder(Env& e) {
   double h = e.len(), rl = e.len(), rh = e.r.chance(0.3) ? -1.0 : e.len();
   if (e.r.chance(0.08)) h = -h;
   int seg = e.r.chance(0.3) ? 0 : e.r.range(3, 14), ctr = cint(e);
-  mkMan(e, "manifold_cylinder", [&](void* m) { return CF(manifold_cylinder)(m, h, rl, rh, seg, ctr); },
+  int ni_ = mkMan(e, "manifold_cylinder", [&](void* m) { return CF(manifold_cylinder)(m, h, rl, rh, seg, ctr); },
         [&] { return Manifold::Cylinder(h, rl, rh, seg, ctr != 0); },
         "cylinder(" + fmt(h) + "," + fmt(rl) + "," + fmt(rh) + "," + std::to_string(seg) + "," + std::to_string(ctr) + ")");
+  if (ni_ >= 0) e.mans[ni_].simple = e.mans[ni_].ok;
 }
 static void e_sphere(Env& e) {
   double rad = e.r.chance(0.08) ? -1.0 : e.len();
   int seg = e.r.chance(0.3) ? 0 : e.r.range(3, 20);
-  mkMan(e, "manifold_sphere", [&](void* m) { return CF(manifold_sphere)(m, rad, seg); }, [&] { return Manifold::Sphere(rad, seg); },
+  int ni_ = mkMan(e, "manifold_sphere", [&](void* m) { return CF(manifold_sphere)(m, rad, seg); }, [&] { return Manifold::Sphere(rad, seg); },
         "sphere(" + fmt(rad) + "," + std::to_string(seg) + ")");
+  if (ni_ >= 0) e.mans[ni_].simple = e.mans[ni_].ok;
 }
 static void e_hull_pts(Env& e) {
   int n = e.r.chance(0.1) ? e.r.range(0, 3) : e.r.range(4, 24);
@@ -1418,7 +1425,7 @@ static void smoothMesh(Env& e, int variant) {  // 0 smooth 1 smooth64 2 ec_smoot
     std::vector<int> cand;
     size_t n = is64 ? e.meshes64.size() : e.meshes.size();
     for (size_t k = 0; k < n; k++) {
-      bool v = is64 ? e.meshes64[k].valid : e.meshes[k].valid;
+      bool v = is64 ? (e.meshes64[k].valid && e.meshes64[k].exact) : (e.meshes[k].valid && e.meshes[k].exact);  // caller-built primitives only
       size_t nt = is64 ? e.meshes64[k].p.triVerts.size() / 3 : e.meshes[k].p.triVerts.size() / 3;
       if (v && nt > 0 && nt <= 300) cand.push_back((int)k);
     }
@@ -1477,11 +1484,13 @@ static void e_ec_smooth64(Env& e) { smoothMesh(e, 3); }
 // ---------------------------------------------------------------- entries: manifold -> manifold
 static void e_copy(Env& e) {
   PICK_MAN(a);
-  mkMan(e, "manifold_copy", [&](void* m) { return CF(manifold_copy)(m, ac); }, [&] { return Manifold(ap); }, "copy(" + an + ")");
+  int ni_ = mkMan(e, "manifold_copy", [&](void* m) { return CF(manifold_copy)(m, ac); }, [&] { return Manifold(ap); }, "copy(" + an + ")");
+  if (ni_ >= 0) e.mans[ni_].simple = e.mans[a].simple && e.mans[ni_].ok && (true);
 }
 static void e_as_original(Env& e) {
   PICK_MAN(a);
-  mkMan(e, "manifold_as_original", [&](void* m) { return CF(manifold_as_original)(m, ac); }, [&] { return ap.AsOriginal(); }, "as_original(" + an + ")");
+  int ni_ = mkMan(e, "manifold_as_original", [&](void* m) { return CF(manifold_as_original)(m, ac); }, [&] { return ap.AsOriginal(); }, "as_original(" + an + ")");
+  if (ni_ >= 0) e.mans[ni_].simple = e.mans[a].simple && e.mans[ni_].ok && (true);
 }
 static void e_hull(Env& e) {
   PICK_MAN(a, 600);
@@ -1491,21 +1500,24 @@ static double maybeNaN(Env& e, double v) { return e.r.chance(0.02) ? (e.r.chance
 static void e_translate(Env& e) {
   PICK_MAN(a);
   double x = maybeNaN(e, e.coord()), y = e.coord(), z = e.coord();
-  mkMan(e, "manifold_translate", [&](void* m) { return CF(manifold_translate)(m, ac, x, y, z); }, [&] { return ap.Translate(vec3(x, y, z)); },
+  int ni_ = mkMan(e, "manifold_translate", [&](void* m) { return CF(manifold_translate)(m, ac, x, y, z); }, [&] { return ap.Translate(vec3(x, y, z)); },
         "translate(" + an + "," + fmt(x) + "," + fmt(y) + "," + fmt(z) + ")");
+  if (ni_ >= 0) e.mans[ni_].simple = e.mans[a].simple && e.mans[ni_].ok && (true);
 }
 static void e_rotate(Env& e) {
   PICK_MAN(a);
   double x = e.r.chance(0.3) ? 90.0 * e.r.range(-2, 2) : e.uni(-180, 180), y = e.uni(-90, 90), z = e.uni(-180, 180);
-  mkMan(e, "manifold_rotate", [&](void* m) { return CF(manifold_rotate)(m, ac, x, y, z); }, [&] { return ap.Rotate(x, y, z); },
+  int ni_ = mkMan(e, "manifold_rotate", [&](void* m) { return CF(manifold_rotate)(m, ac, x, y, z); }, [&] { return ap.Rotate(x, y, z); },
         "rotate(" + an + "," + fmt(x) + "," + fmt(y) + "," + fmt(z) + ")");
+  if (ni_ >= 0) e.mans[ni_].simple = e.mans[a].simple && e.mans[ni_].ok && (true);
 }
 static void e_scale(Env& e) {
   PICK_MAN(a);
   double x = e.uni(0.4, 2), y = e.uni(0.4, 2), z = maybeNaN(e, e.uni(0.4, 2));
   if (e.r.chance(0.15)) y = -y;
-  mkMan(e, "manifold_scale", [&](void* m) { return CF(manifold_scale)(m, ac, x, y, z); }, [&] { return ap.Scale(vec3(x, y, z)); },
+  int ni_ = mkMan(e, "manifold_scale", [&](void* m) { return CF(manifold_scale)(m, ac, x, y, z); }, [&] { return ap.Scale(vec3(x, y, z)); },
         "scale(" + an + "," + fmt(x) + "," + fmt(y) + "," + fmt(z) + ")");
+  if (ni_ >= 0) e.mans[ni_].simple = e.mans[a].simple && e.mans[ni_].ok && (true);
 }
 static void e_transform(Env& e) {
   PICK_MAN(a);
@@ -1515,16 +1527,18 @@ static void e_transform(Env& e) {
   v[0] += 1; v[4] += 1; v[8] += 1;
   mat3x4 M;
   for (int col = 0; col < 4; col++) M[col] = vec3(v[3 * col], v[3 * col + 1], v[3 * col + 2]);
-  mkMan(e, "manifold_transform",
+  int ni_ = mkMan(e, "manifold_transform",
         [&](void* m) { return CF(manifold_transform)(m, ac, v[0], v[1], v[2], v[3], v[4], v[5], v[6], v[7], v[8], v[9], v[10], v[11]); },
         [&] { return ap.Transform(M); }, "transform(" + an + "," + fmtv(std::vector<double>(v, v + 12)) + ")");
+  if (ni_ >= 0) e.mans[ni_].simple = e.mans[a].simple && e.mans[ni_].ok && (true);
 }
 static void e_mirror(Env& e) {
   PICK_MAN(a);
   double x = e.coord(), y = e.coord(), z = e.coord();
   if (e.r.chance(0.05)) x = y = z = 0;
-  mkMan(e, "manifold_mirror", [&](void* m) { return CF(manifold_mirror)(m, ac, x, y, z); }, [&] { return ap.Mirror(vec3(x, y, z)); },
+  int ni_ = mkMan(e, "manifold_mirror", [&](void* m) { return CF(manifold_mirror)(m, ac, x, y, z); }, [&] { return ap.Mirror(vec3(x, y, z)); },
         "mirror(" + an + "," + fmt(x) + "," + fmt(y) + "," + fmt(z) + ")");
+  if (ni_ >= 0) e.mans[ni_].simple = e.mans[a].simple && e.mans[ni_].ok && (true);
 }
 struct WarpCtx { uint64_t magic; double a, b, c; long calls; };
 static vec3 warpEval(const WarpCtx* w, double x, double y, double z) {  // not symmetric in any pair of arguments
@@ -1598,7 +1612,7 @@ static void e_calculate_normals(Env& e) {
         [&] { return ap.CalculateNormals(idx, ang); }, "calculate_normals(" + an + "," + std::to_string(idx) + "," + fmt(ang) + ")");
 }
 static void e_smooth_by_normals(Env& e) {
-  PICK_MAN(a, 300, true, true);
+  PICK_MAN(a, 300, true, true, true);
   double ang = e.uni(20, 80);
   int idx = e.r.range(0, 1);
   int i = mkMan(e, "manifold_calculate_normals", [&](void* m) { return CF(manifold_calculate_normals)(m, ac, idx, ang); },
@@ -1610,13 +1624,13 @@ static void e_smooth_by_normals(Env& e) {
         "smooth_by_normals(m" + std::to_string(i) + "," + std::to_string(idx) + ")");
 }
 static void e_smooth_out(Env& e) {
-  PICK_MAN(a, 300, true, true);
+  PICK_MAN(a, 300, true, true, true);
   double ang = e.uni(10, 120), sm = e.r.chance(0.4) ? 0.0 : e.uni(0, 1);
   mkMan(e, "manifold_smooth_out", [&](void* m) { return CF(manifold_smooth_out)(m, ac, ang, sm); }, [&] { return ap.SmoothOut(ang, sm); },
         "smooth_out(" + an + "," + fmt(ang) + "," + fmt(sm) + ")");
 }
 static void e_refine(Env& e) {
-  PICK_MAN(a, 150, true);
+  PICK_MAN(a, 150, true, false, true);
   int n = e.r.range(1, 3);
   mkMan(e, "manifold_refine", [&](void* m) { return CF(manifold_refine)(m, ac, n); }, [&] { return ap.Refine(n); }, "refine(" + an + "," + std::to_string(n) + ")");
 }
@@ -1626,13 +1640,13 @@ static double scaleOf(const Manifold& m) {
   return (std::isfinite(s) && s > 0) ? s : 1.0;
 }
 static void e_refine_to_length(Env& e) {
-  PICK_MAN(a, 150, true);
+  PICK_MAN(a, 150, true, false, true);
   double len = scaleOf(ap) / e.uni(1.5, 5);
   mkMan(e, "manifold_refine_to_length", [&](void* m) { return CF(manifold_refine_to_length)(m, ac, len); }, [&] { return ap.RefineToLength(len); },
         "refine_to_length(" + an + "," + fmt(len) + ")");
 }
 static void e_refine_to_tolerance(Env& e) {
-  PICK_MAN(a, 150, true);
+  PICK_MAN(a, 150, true, false, true);
   double tol = scaleOf(ap) / e.uni(15, 150);
   mkMan(e, "manifold_refine_to_tolerance", [&](void* m) { return CF(manifold_refine_to_tolerance)(m, ac, tol); }, [&] { return ap.RefineToTolerance(tol); },
         "refine_to_tolerance(" + an + "," + fmt(tol) + ")");
@@ -1976,7 +1990,7 @@ static void e_exec_ctx(Env& e) {
                 std::string("with_context(boolean(") + an + "," + bn + "," + op.name + ")" + (cancel ? ",cancelled ctx" : ",ctx") + ")");
   if (w >= 0) cmpEc(e, ec);
   // an eager op under the context
-  if (!e.stop && e.mans[(size_t)a].ntri <= 150 && e.mans[(size_t)a].ok) {
+  if (!e.stop && e.mans[(size_t)a].ntri <= 150 && e.mans[(size_t)a].ok && e.mans[(size_t)a].simple) {
     Slot sw = e.getMem(T_MAN);
     ManifoldManifold* cw = e.adopt(sw, CF(manifold_with_context)(sw.mem, ac, ec.c), "manifold_with_context");
     Manifold pw = ap.WithContext(*ec.p);
@@ -2349,7 +2363,8 @@ static void e_box(Env& e) {
 static void e_quality(Env& e) {
   // process-global state shared by both APIs: set through one, read through both, then the other way round
   double ang = e.r.chance(0.1) ? -5.0 : e.uni(2, 40), len = e.r.chance(0.1) ? 0.0 : e.uni(0.05, 2), rad = e.uni(0.1, 20);
-  int seg = e.r.chance(0.5) ? 0 : e.r.range(3, 40);
+  // (global segment counts 1..3 make Manifold::Sphere(r, 0) subdivide by -1: a core defect, outside the binding)
+  int seg = e.r.chance(0.5) ? 0 : e.r.range(4, 40);
   e.note("quality(angle=" + fmt(ang) + ",length=" + fmt(len) + ",segments=" + std::to_string(seg) + ",radius=" + fmt(rad) + ")");
   CF(manifold_reset_to_circular_defaults)();
   int d0c = CF(manifold_get_circular_segments)(rad);
